@@ -127,6 +127,10 @@ func persistSeq(sp persistSpec) []string {
 					out = append(out, tag+name)
 				}
 				return false
+			case *ast.DeferStmt:
+				// a deferred call runs when the function returns, not where it is written
+				visit(t.Call, tag+"defer:")
+				return false
 			case *ast.GoStmt:
 				die("%s: goroutine started inside a persistence sequence", where)
 			}
@@ -243,16 +247,43 @@ func genPersist() {
 	emit(persistSpec{lean: "fileStoreSaveSharePersist", dir: "common/key", recv: "fileStore", fn: "SaveShare",
 		vocab: map[string]string{"Save": "Save", "fmt.Printf": ""}, args: map[string][]int{"Save": {0, 2}},
 		strict: []string{"os.", "fs.", "toml."}, required: []string{"Save:f.shareFile:true"}})
+	// fileStore.Reset: share, then group; the atomicRename variant also removes what an interrupted Save left behind
 	emit(persistSpec{lean: "fileStoreResetPersist", dir: "common/key", recv: "fileStore", fn: "Reset",
-		vocab: map[string]string{"Delete": "Delete"}, args: map[string][]int{"Delete": {0}},
+		vocab: map[string]string{"Delete": "Delete", "fmt.Errorf": ""}, args: map[string][]int{"Delete": {0}},
 		strict: []string{"os.", "fs."}, required: []string{"Delete:f.shareFile", "Delete:f.groupFile"}})
-	emit(persistSpec{lean: "keySavePersist", dir: "common/key", recv: "", fn: "Save",
+	// key.Save: the file-write primitive of the key store. Two shapes are recognised, anything else is fatal:
+	//   inPlace       creator(filePath); defer Close; Encode                       (a crash leaves a truncated / torn target)
+	//   atomicRename  creator(filePath+tmpExtension); Encode; Sync; Close; os.Rename(tmp, filePath); os.Remove(tmp) on error
+	saveSeq := persistSeq(persistSpec{lean: "keySavePersist", dir: "common/key", recv: "", fn: "Save",
 		vocab: map[string]string{"fs.CreateSecureFile": "fs.CreateSecureFile", "os.Create": "os.Create",
-			"toml.NewEncoder": "", "toml.NewEncoder(fd).Encode": "Encode", "fd.Close": "", "t.TOML": "", "fmt.Errorf": "", "reflect.TypeOf": "", "reflect.TypeOf(t).String": ""},
+			"toml.NewEncoder": "", "toml.NewEncoder(fd).Encode": "Encode", "fd.Close": "Close", "fd.Sync": "Sync",
+			"os.Rename": "os.Rename", "os.Remove": "os.Remove",
+			"t.TOML": "", "fmt.Errorf": "", "reflect.TypeOf": "", "reflect.TypeOf(t).String": ""},
+		args:     map[string][]int{"fs.CreateSecureFile": {0}, "os.Create": {0}, "os.Rename": {0, 1}, "os.Remove": {0}},
 		strict:   []string{"os.", "fs.", "toml.", "fd."},
-		ifTags:   map[string]string{"secure": "secure:"},
+		ifTags:   map[string]string{"secure": "secure:", "err!=nil": "err:", "err==nil": "ok:"},
 		elseTags: map[string]string{"secure": "plain:"},
-		required: []string{"secure:fs.CreateSecureFile", "plain:os.Create", "Encode"}})
+		required: []string{"Encode"}})
+	saveInPlace := []string{"secure:fs.CreateSecureFile:filePath", "plain:os.Create:filePath", "defer:Close", "Encode"}
+	saveAtomic := []string{"secure:fs.CreateSecureFile:filePath+tmpExtension", "plain:os.Create:filePath+tmpExtension",
+		"err:os.Remove:filePath+tmpExtension", "Encode", "ok:Sync", "Close",
+		"ok:os.Rename:filePath+tmpExtension:filePath", "err:os.Remove:filePath+tmpExtension"}
+	variant, tmpExt := "", ""
+	switch strings.Join(saveSeq, " ; ") {
+	case strings.Join(saveInPlace, " ; "):
+		variant = "inPlace"
+	case strings.Join(saveAtomic, " ; "):
+		variant = "atomicRename"
+		tmpExt = constString("common/key", "tmpExtension")
+		if tmpExt == "" || strings.ContainsAny(tmpExt, "/\\") {
+			die("common/key: tmpExtension %q does not name a sibling of the target file", tmpExt)
+		}
+	default:
+		die("common/key:Save: file-write protocol not recognised (neither write-in-place nor temporary-file-then-rename): %v", saveSeq)
+	}
+	l.pf("/-- common/key: `Save` — persistence-relevant calls in evaluation order (argument texts appended; a single-assignment local is shown by its defining expression) -/\ndef keySavePersist : List String := %s\n", leanStrList(saveSeq))
+	l.pf("/-- which of the two recognised file-write protocols `key.Save` is: \"inPlace\" (create/truncate the target, encode into it) or\n\"atomicRename\" (encode into `<target><tmpExtension>`, Sync, Close, rename over the target, remove the temporary file on error) -/\n")
+	l.pf("def keySaveVariant : String := %s\ndef keyTmpExtension : String := %s\n", leanStr(variant), leanStr(tmpExt))
 	emit(persistSpec{lean: "keyDeletePersist", dir: "common/key", recv: "", fn: "Delete",
 		vocab: map[string]string{"os.RemoveAll": "os.RemoveAll"}, strict: []string{"os.", "fs."}, required: []string{"os.RemoveAll"}})
 	emit(persistSpec{lean: "createSecureFilePersist", dir: "internal/fs", recv: "", fn: "CreateSecureFile",
